@@ -67,6 +67,17 @@ let handle = function
   | ["foldbytes"; "bb"; op; l; r] -> obs (C.constant_fold_binary_op_extended_bytes_bytes (coq_string op) (bytes_of l) (bytes_of r))
   | ["foldbytes"; "bi"; op; l; r] -> obs (C.constant_fold_binary_op_extended_bytes_int (coq_string op) (bytes_of l) (z_of_text r))
   | ["foldbytes"; "ib"; op; l; r] -> obs (C.constant_fold_binary_op_extended_int_bytes (coq_string op) (z_of_text l) (bytes_of r))
+  | "chain" :: vs ->
+      let (bs, e) = C.chain_marks (zlist vs) in
+      String.concat "" (List.map (fun b -> if b then "1" else "0") bs) ^ " " ^ (if e then "1" else "0")
+  | "cond" :: toks ->
+      (* nested condition in postfix: a number = leaf truth value, ! = not, & = and, | = or *)
+      let rec go st = function
+        | [] -> (match st with [e] -> e | _ -> failwith "cond")
+        | "!" :: r -> (match st with e :: s -> go (C.CNot e :: s) r | _ -> failwith "cond")
+        | ("&" | "|") as o :: r -> (match st with b :: a :: s -> go (C.COp (coq_string (if o = "&" then "and" else "or"), a, b) :: s) r | _ -> failwith "cond")
+        | n :: r -> go (C.CLeaf (z_of_text n, false) :: st) r in
+      oz (C.infer_cond (go [] toks))
   | ["platform"; p; op; lit] -> text_of_z (C.platform_cmp_core (coq_string p) (coq_string op) (coq_string lit))
   | ["startswith"; p; lit] -> text_of_z (C.platform_startswith_core (coq_string p) (coq_string lit))
   | ["or"; a; b] -> text_of_z (C.infer_op_table (coq_string "or") (z_of_text a) (z_of_text b))
